@@ -517,20 +517,15 @@ impl Engine for C13 {
         }
         None
     }
-    fn known_finding_crash(
-        &self,
-        _k: u64,
-        seed: u64,
-        _tier: Tier,
-        kind: &str,
-    ) -> Option<&'static str> {
-        if kind != "hang" {
-            return None;
-        }
-        // D5: the case is regenerated (pure function of the seed, nothing is sampled)
+    fn crash_tag(&self, _k: u64, seed: u64, _tier: Tier) -> Option<String> {
+        // D5: the case is regenerated in the worker (a pure function of the seed,
+        // nothing is sampled), before it is run
         let mut g = Gen::new(seed);
         let c = gen_case(&mut g);
-        if is_binv(&c.dist) && !c.prefix.is_empty() {
+        (is_binv(&c.dist) && !c.prefix.is_empty()).then(|| "binv-with-scripted-prefix".to_string())
+    }
+    fn known_finding_crash(&self, kind: &str, tag: Option<&str>) -> Option<&'static str> {
+        if kind == "hang" && tag == Some("binv-with-scripted-prefix") {
             Some("D5")
         } else {
             None
